@@ -54,3 +54,17 @@ pub proof fn lemma_cat_one(c: Seq<BoxSource>)
   ensures texts(c) == c[0].text(), raws(c) == c[0].raw()
 { assert(c.drop_last() =~= Seq::<BoxSource>::empty()); assert(texts(c.drop_last()) =~= Seq::<u8>::empty()); assert(raws(c.drop_last()) =~= Seq::<u8>::empty());
   assert(texts(c) =~= c[0].text()); assert(raws(c) =~= c[0].raw()); }
+// ---- leaves (base cases of the induction): specs of the std functions their one-line views call ----
+/// std: a String's bytes are the UTF-8 encoding of its chars; `len` is their number (vstd specifies both for `str` only)
+pub assume_specification[std::string::String::as_bytes](s: &String) -> (r: &[u8]) ensures r@ == encode_utf8(s@);
+pub assume_specification[std::string::String::len](s: &String) -> (n: usize) ensures n == encode_utf8(s@).len();
+/// a `str` is at most usize::MAX bytes long (vstd's `str::len` is `spec_bytes().len() as usize`; same axiom as in spec/rope_spec.rs)
+pub broadcast axiom fn axiom_str_len_bound(s: &str) ensures #[trigger] s.spec_bytes().len() <= usize::MAX;
+impl<'a> Rope<'a> {
+  /// D6: `impl From<&'a String> for Rope<'a>` and `impl From<&'a Cow<'a, str>> for Rope<'a>` (src/rope.rs: `Rope { repr: Repr::Light(value) }`, the
+  /// single-piece rope over that string - same shape as `From<&str>`, which unit rope_core proves), named as inherent functions of the opaque type
+  #[verifier::external_body]
+  pub fn from_string(value: &'a String) -> (r: Self) ensures r.wf(), r.bytes() == encode_utf8(value@) { unimplemented!() }
+  #[verifier::external_body]
+  pub fn from_cow(value: &'a Cow<'a, str>) -> (r: Self) ensures r.wf(), r.bytes() == cow_str_bytes(value) { unimplemented!() }
+}
